@@ -276,7 +276,7 @@ func putProtoLabelIndices(ctx *datastore.VersionedCtx, dataIn []byte) (numAdded,
 			return
 		}
 		if len(protoIdx.Blocks) == 0 {
-			if err = deleteLabelIndex(ctx, protoIdx.Label); err != nil {
+			if err = deleteCachedLabelIndex(data, ctx.VersionID(), protoIdx.Label); err != nil {
 				return
 			}
 			numDeleted++
@@ -286,6 +286,10 @@ func putProtoLabelIndices(ctx *datastore.VersionedCtx, dataIn []byte) (numAdded,
 		idx := labels.Index{LabelIndex: *protoIdx}
 		if err = putLabelIndex(store, ctx, data, &idx); err != nil {
 			return
+		}
+		// not cached, but a copy cached by an earlier read of this label is stale now
+		if indexCache != nil {
+			indexCache.Del(indexKey{data: data, version: ctx.VersionID(), label: idx.Label}.Bytes())
 		}
 		if idx.Label > maxLabel {
 			maxLabel = idx.Label
